@@ -1,6 +1,8 @@
 package cl
 
 import (
+	"fmt"
+	"math/big"
 	"runtime/debug"
 	"sort"
 	"strings"
@@ -523,6 +525,108 @@ func (w *world) idleAccrual(snap []idlePool, op string) (ok bool) {
 						return false
 					}
 				}
+			}
+		}
+	}
+	return true
+}
+
+// ---- no operation loses or duplicates matured incentives ----
+
+// incExcess is, for one pool, what the incentive account holds beyond what all positions together could
+// claim or forfeit right now (claim truncation dust), per denomination.
+type incExcess struct {
+	ok     bool
+	excess map[string]*big.Int
+	liq    osmomath.Dec
+	n      int
+	detail []string
+	bal    sdk.Coins
+}
+
+// incentiveExcess snapshots every pool. Within one block nothing is emitted, so an operation (claim, add-to,
+// withdraw, transfer, swap, new position) may move incentives between "claimable by somebody" and "paid out
+// of the account" but may neither strand them in the account nor promise more than the account holds:
+// balance minus the sum of claimable-or-forfeitable stays where it was, up to rounding.
+func (w *world) incentiveExcess() map[uint64]*incExcess {
+	n, k := w.n, w.n.App.ConcentratedLiquidityKeeper
+	out := map[uint64]*incExcess{}
+	for _, p := range w.pools {
+		e := &incExcess{ok: true, excess: map[string]*big.Int{}, liq: osmomath.ZeroDec()}
+		e.bal = n.AllBalances(n.Ctx, p.incAdr)
+		for _, c := range e.bal {
+			e.excess[c.Denom] = new(big.Int).Set(c.Amount.BigInt())
+		}
+		for _, q := range w.poolPositions(p) {
+			c, f, err := k.GetClaimableIncentives(n.Ctx, q.id)
+			if err != nil {
+				e.ok = false
+				break
+			}
+			for _, x := range c.Add(f...) {
+				if e.excess[x.Denom] == nil {
+					e.excess[x.Denom] = new(big.Int)
+				}
+				e.excess[x.Denom].Sub(e.excess[x.Denom], x.Amount.BigInt())
+			}
+			e.liq = e.liq.Add(q.liq)
+			e.n++
+			e.detail = append(e.detail, fmt.Sprintf("#%d[%d,%d)L=%s c=%s f=%s", q.id, q.lower, q.upper, q.liq.TruncateInt(), c, f))
+		}
+		out[p.id] = e
+	}
+	return out
+}
+
+func (w *world) incentiveConservation(op string, before map[uint64]*incExcess) bool {
+	after := w.incentiveExcess()
+	for _, p := range w.pools {
+		b, a := before[p.id], after[p.id]
+		if b == nil || a == nil || !b.ok || !a.ok {
+			continue
+		}
+		denoms := map[string]bool{}
+		for d := range b.excess {
+			denoms[d] = true
+		}
+		for d := range a.excess {
+			denoms[d] = true
+		}
+		ds := make([]string, 0, len(denoms))
+		for d := range denoms {
+			ds = append(ds, d)
+		}
+		sort.Strings(ds)
+		// rounding: one unit per position and claim, plus the 18-digit truncation of growth per unit of
+		// liquidity (scaled by 1e27 on pools past the migration threshold) on each of up to 6 uptimes
+		liq := b.liq
+		if a.liq.GT(liq) {
+			liq = a.liq
+		}
+		per := new(big.Int).Quo(liq.BigInt(), new(big.Int).Exp(big.NewInt(10), big.NewInt(18), nil)) // liq (18-digit decimal) as integer
+		per.Quo(per, new(big.Int).Exp(big.NewInt(10), big.NewInt(18), nil))
+		if p.scaled {
+			per.Quo(per, new(big.Int).Exp(big.NewInt(10), big.NewInt(27), nil))
+		}
+		slack := new(big.Int).Mul(per, big.NewInt(6))
+		slack.Add(slack, big.NewInt(int64(2*(b.n+a.n)+4)))
+		for _, d := range ds {
+			x, y := b.excess[d], a.excess[d]
+			if x == nil {
+				x = new(big.Int)
+			}
+			if y == nil {
+				y = new(big.Int)
+			}
+			delta := new(big.Int).Sub(y, x)
+			w.run.Count("c08/incentive-conservation-checked")
+			if delta.Cmp(slack) > 0 {
+				w.run.Fail("C08", "incentives-stranded", op, "pool %d, %s: before %s the incentive account held %s more %s than all positions could claim or forfeit, afterwards %s more: %s %s became unclaimable in one operation (rounding allowance %s); before: %v balance %s; after: %v balance %s", p.id, op, op, x, d, y, delta, d, slack, b.detail, b.bal, a.detail, a.bal)
+				return false
+			}
+			if new(big.Int).Neg(delta).Cmp(slack) > 0 {
+				w.run.Fail("C08", "incentives-duplicated", op, "pool %d, %s: the incentive account's excess of %s over everything claimable or forfeitable went from %s to %s in one operation: %s more is now promised than before (rounding allowance %s)", p.id, op, d, x, y, new(big.Int).Neg(delta), slack)
+				return false
 			}
 		}
 	}
